@@ -699,6 +699,8 @@ impl<'a> UserModel<'a> {
     /// * [Model::set_sheet_state]
     /// * [UserModel::unhide_sheet]
     pub fn hide_sheet(&mut self, sheet: u32) -> Result<(), String> {
+        let old_value = self.model.workbook.worksheet(sheet)?.state.clone();
+        self.model.set_sheet_state(sheet, SheetState::Hidden)?;
         let sheet_count = self.model.workbook.worksheets.len() as u32;
         for index in 1..sheet_count {
             let sheet_index = (sheet + index) % sheet_count;
@@ -709,13 +711,11 @@ impl<'a> UserModel<'a> {
                 break;
             }
         }
-        let old_value = self.model.workbook.worksheet(sheet)?.state.clone();
         self.push_diff_list(vec![Diff::SetSheetState {
             index: sheet,
             new_value: SheetState::Hidden,
             old_value,
         }]);
-        self.model.set_sheet_state(sheet, SheetState::Hidden)?;
         Ok(())
     }
 
@@ -726,12 +726,12 @@ impl<'a> UserModel<'a> {
     /// * [UserModel::hide_sheet]
     pub fn unhide_sheet(&mut self, sheet: u32) -> Result<(), String> {
         let old_value = self.model.workbook.worksheet(sheet)?.state.clone();
+        self.model.set_sheet_state(sheet, SheetState::Visible)?;
         self.push_diff_list(vec![Diff::SetSheetState {
             index: sheet,
             new_value: SheetState::Visible,
             old_value,
         }]);
-        self.model.set_sheet_state(sheet, SheetState::Visible)?;
         Ok(())
     }
 
